@@ -58,6 +58,20 @@ template <class T> struct Priv {
     T &operator[](size_t i) { return v[i]; }
 };
 
+// Digests the first `want` bytes of a harness buffer.  `want` often comes from the library
+// (a returned length): when interference between tasks makes it larger than the buffer, the
+// harness must not read past its own block (heap residue there is not a function of the
+// seed - glibc stores a random key in freed chunks); the excess is recorded as a number.
+template <class D, class T> static void dig(D &d, Priv<T> &b, size_t want) {
+    size_t cap = b.size() * sizeof(T);
+    if (want > cap) {
+        d.u64(0xbadbadbadULL);
+        d.u64(want);
+        want = cap;
+    }
+    d.bytes(b.data(), want);
+}
+
 struct Lib { // marks the dynamic extent of library calls for the scheduler statistics
     Lib() { fiber::lib_enter(); }
     ~Lib() { fiber::lib_exit(); }
@@ -193,15 +207,15 @@ uint64_t run_call(const Op &c, Shared &sh, int slice, int nslices) {
             for (size_t i = 0; i < n; i++) sv[i] = (int64_t)(in[i] >> 2);
             w = varintDeltaEncode(buf.data(), sv.data(), n);
             rd = varintDeltaDecode(buf.data(), n, so.data());
-            d.bytes(so.data(), n * 8);
+            dig(d, so, n * 8);
         } else {
             w = varintDeltaEncodeUnsigned(buf.data(), in, n);
             rd = varintDeltaDecodeUnsigned(buf.data(), n, out.data());
-            d.bytes(out.data(), n * 8);
+            dig(d, out, n * 8);
         }
         d.u64(w);
         d.u64(rd);
-        d.bytes(buf.data(), w);
+        dig(d, buf, w);
     } else if (k == "for.rt") {
         Lib l;
         varintFORMeta m;
@@ -209,11 +223,11 @@ uint64_t run_call(const Op &c, Shared &sh, int slice, int nslices) {
         varintFORAnalyze(in, n, &m);
         size_t w = varintFOREncode(buf.data(), in, n, c.u("nometa") ? nullptr : &m);
         d.u64(w);
-        d.bytes(buf.data(), w);
+        dig(d, buf, w);
         d.u64(varintFORDecode(buf.data(), out.data(), n));
-        d.bytes(out.data(), n * 8);
+        dig(d, out, n * 8);
         d.u64(varintFORBatchDecode(buf.data(), out.data(), n));
-        d.bytes(out.data(), n * 8);
+        dig(d, out, n * 8);
         d.u64(varintFORDecodeBlock(buf.data(), out.data(), n / 2, n));
         d.u64(varintFORGetAt(buf.data(), n / 3));
         d.u64(varintFORGetCount(buf.data()));
@@ -226,10 +240,10 @@ uint64_t run_call(const Op &c, Shared &sh, int slice, int nslices) {
         Priv<uint8_t> big(64 + n * 24 + 4096);
         size_t w = varintPFOREncode(big.data(), in, (uint32_t)n, (uint32_t)c.u("threshold", 95), &m);
         d.u64(w);
-        d.bytes(big.data(), w);
+        dig(d, big, w);
         if (w) {
             d.u64(varintPFORDecode(big.data(), out.data(), &m2));
-            d.bytes(out.data(), n * 8);
+            dig(d, out, n * 8);
             d.u64(varintPFORGetAt(big.data(), (uint32_t)(n / 2), &m2));
             for (size_t i = 0; i < n; i += (n > 16 ? n / 8 : 1)) d.u64(varintPFORGetAt(big.data(), (uint32_t)i, &m2));
         }
@@ -238,10 +252,10 @@ uint64_t run_call(const Op &c, Shared &sh, int slice, int nslices) {
         size_t w = varintGroupEncode(buf.data(), in, (uint8_t)n);
         uint8_t fc = 0;
         d.u64(w);
-        d.bytes(buf.data(), w);
+        dig(d, buf, w);
         d.u64(varintGroupDecode(buf.data(), out.data(), &fc, n));
         d.u64(fc);
-        d.bytes(out.data(), n * 8);
+        dig(d, out, n * 8);
         d.u64(varintGroupGetSize(buf.data()));
         {
             uint64_t fv = 0;
@@ -256,16 +270,18 @@ uint64_t run_call(const Op &c, Shared &sh, int slice, int nslices) {
         size_t w = varintDictEncode(big.data(), in, n);
         d.u64(need);
         d.u64(w);
-        d.bytes(big.data(), w);
+        dig(d, big, w);
         size_t cnt = 0;
         uint64_t *o = varintDictDecode(big.data(), w, &cnt);
         d.u64(cnt);
         if (o) {
-            d.bytes(o, cnt * 8);
+            size_t have = alloc::size_of(o);
+            if (cnt * 8 > have) d.u64(0xbadbadbadULL);
+            d.bytes(o, std::min(cnt * 8, have));
             alloc::release(o);
         }
         d.u64(varintDictDecodeInto(big.data(), w, out.data(), n));
-        d.bytes(out.data(), n * 8);
+        dig(d, out, n * 8);
     } else if (k == "dict.shared") {
         auto it = sh.dicts.find(c.u("in"));
         if (it == sh.dicts.end()) return 0;
@@ -275,7 +291,7 @@ uint64_t run_call(const Op &c, Shared &sh, int slice, int nslices) {
         Priv<uint8_t> big(need + 64);
         size_t w = varintDictEncodeWithDict(big.data(), dict, in, n);
         d.u64(w);
-        d.bytes(big.data(), w);
+        dig(d, big, w);
         for (size_t i = 0; i < n; i += 3) {
             int32_t idx = varintDictFind(dict, in[i]);
             d.u64((uint64_t)idx);
@@ -289,10 +305,10 @@ uint64_t run_call(const Op &c, Shared &sh, int slice, int nslices) {
         size_t w = k == "rle.rt" ? varintRLEEncode(buf.data(), in, n, mp)
                                  : varintRLEEncodeWithHeader(buf.data(), in, n, mp);
         d.u64(w);
-        d.bytes(buf.data(), w);
+        dig(d, buf, w);
         d.u64(k == "rle.rt" ? varintRLEDecode(buf.data(), out.data(), n)
                             : varintRLEDecodeWithHeader(buf.data(), out.data(), n));
-        d.bytes(out.data(), n * 8);
+        dig(d, out, n * 8);
         d.u64(varintRLESize(in, n));
         if (k == "rle.rt") {
             d.u64(varintRLEGetRunCount(buf.data(), w));
@@ -312,10 +328,10 @@ uint64_t run_call(const Op &c, Shared &sh, int slice, int nslices) {
         size_t bits = nometa ? w * 8 : m.totalBits;
         d.u64(w);
         d.u64(bits);
-        d.bytes(big.data(), w);
+        dig(d, big, w);
         d.u64(g ? varintEliasGammaDecodeArray(big.data(), bits, out.data(), n)
                 : varintEliasDeltaDecodeArray(big.data(), bits, out.data(), n));
-        d.bytes(out.data(), n * 8);
+        dig(d, out, n * 8);
     } else if (k == "bp128.32" || k == "bp128d.32") {
         Lib l;
         Priv<uint32_t> v32(n), o32(n + 8);
@@ -327,10 +343,10 @@ uint64_t run_call(const Op &c, Shared &sh, int slice, int nslices) {
         size_t w = k == "bp128.32" ? varintBP128Encode32(big.data(), v32.data(), n, mp)
                                    : varintBP128DeltaEncode32(big.data(), v32.data(), n, mp);
         d.u64(w);
-        d.bytes(big.data(), w);
+        dig(d, big, w);
         d.u64(k == "bp128.32" ? varintBP128Decode32(big.data(), o32.data(), n)
                               : varintBP128DeltaDecode32(big.data(), o32.data(), n));
-        d.bytes(o32.data(), n * 4);
+        dig(d, o32, n * 4);
     } else if (k == "bp128.64" || k == "bp128d.64") {
         Lib l;
         Priv<uint8_t> big(varintBP128MaxBytes(n) * 2 + 64);
@@ -340,10 +356,10 @@ uint64_t run_call(const Op &c, Shared &sh, int slice, int nslices) {
         size_t w = k == "bp128.64" ? varintBP128Encode64(big.data(), in, n, mp)
                                    : varintBP128DeltaEncode64(big.data(), in, n, mp);
         d.u64(w);
-        d.bytes(big.data(), w);
+        dig(d, big, w);
         d.u64(k == "bp128.64" ? varintBP128Decode64(big.data(), out.data(), n)
                               : varintBP128DeltaDecode64(big.data(), out.data(), n));
-        d.bytes(out.data(), n * 8);
+        dig(d, out, n * 8);
     } else if (k == "float.rt") {
         Lib l;
         varintFloatPrecision p = (varintFloatPrecision)(c.u("precision") & 3);
@@ -351,10 +367,10 @@ uint64_t run_call(const Op &c, Shared &sh, int slice, int nslices) {
         Priv<uint8_t> big(varintFloatMaxEncodedSize(n, p) + 64);
         size_t w = varintFloatEncode(big.data(), (const double *)in, n, p, mode);
         d.u64(w);
-        d.bytes(big.data(), w);
+        dig(d, big, w);
         if (w) {
             d.u64(varintFloatDecode(big.data(), n, (double *)out.data()));
-            d.bytes(out.data(), n * 8);
+            dig(d, out, n * 8);
         }
     } else if (k == "adaptive.rt" || k == "adaptive.forced") {
         Lib l;
@@ -366,10 +382,10 @@ uint64_t run_call(const Op &c, Shared &sh, int slice, int nslices) {
                        ? varintAdaptiveEncode(big.data(), in, n, mp)
                        : varintAdaptiveEncodeWith(big.data(), in, n, (varintAdaptiveEncodingType)(enc % 6), mp);
         d.u64(w);
-        d.bytes(big.data(), w);
+        dig(d, big, w);
         if (w) {
             d.u64(varintAdaptiveDecode(big.data(), out.data(), n, nullptr));
-            d.bytes(out.data(), n * 8);
+            dig(d, out, n * 8);
         }
     } else if (k == "decode.bad") {
         // the length-taking decoders on truncated / corrupted encodings: their failure exits are
